@@ -106,6 +106,9 @@ def install(reg):
     def nac_post(c):
         v, o, n = c.self, c.old.self, c.node_id
         return [("result_covers_owned_attractors", S.Covers(*args_of(o, n), c.result)),
+                ("result_is_the_cached_list", z3.If(z3.And(OptLS.is_none(o.cand[n]), z3.Not(OptLS.is_none(o.seeds[n]))),
+                                                    z3.And(c.result == OptLS.val(o.seeds[n]), v.cand[n] == o.cand[n], v.seeds[n] == o.seeds[n]),
+                                                    v.cand[n] == OptLS.some(c.result))),
                 ("known_data_never_overwritten", z3.And(
                     z3.Implies(z3.Not(OptLS.is_none(o.cand[n])), v.cand[n] == o.cand[n]),
                     z3.Implies(z3.Not(OptLS.is_none(o.seeds[n])), v.seeds[n] == o.seeds[n]))),
@@ -126,7 +129,7 @@ def install(reg):
         raises={"RuntimeError": [(nm, pick(unchanged_but_caches, nm)) for nm in ["nothing_cached"] + ["inv." + x for x in INVN]],
                 "KeyError": [("nothing_changed", lambda c: z3.And(structure_unchanged(c.self, c.old.self), c.self.ppn == c.old.self.ppn,
                                                                   c.self.pbn == c.old.self.pbn, c.self.pnfvs == c.old.self.pnfvs))]},
-        ensures=[(nm, pick(nac_post, nm)) for nm in ["result_covers_owned_attractors", "known_data_never_overwritten", "frame"] + ["inv." + x for x in INVN]],
+        ensures=[(nm, pick(nac_post, nm)) for nm in ["result_covers_owned_attractors", "result_is_the_cached_list", "known_data_never_overwritten", "frame"] + ["inv." + x for x in INVN]],
         local_types={"candidates": OptLS},
     ), method_of="SD")
 
